@@ -20,7 +20,7 @@ impl Group for E2eGroup {
         let all = vec![
             l("e2e echo socks_ip 5000 2"), l("e2e echo socks_domain 100 1"), l("e2e echo direct 70000 3"), l("e2e echo http 20000 4"), l("e2e echo socks_ip 8192 5"), l("e2e echo http 8193 6"), l("e2e echo socks_ip6 3000 1"), l("e2e echo socks_magic 3000 1"),
             l("e2e halfclose socks 1000"), l("e2e halfclose direct 10"), l("e2e targetclose socks 2000"),
-            l("e2e refused socks"), l("e2e reuse 6"), l("e2e reaper"),
+            l("e2e refused socks"), l("e2e reuse 6"), l("e2e reuse2 1500"), l("e2e reaper"),
             l("e2e badpreamble bitflip"), l("e2e badpreamble random"), l("e2e badpreamble truncated"), l("e2e badpreamble good"),
             l("e2e badpreamble good 1"), l("e2e badpreamble trimmed 1"), l("e2e badpreamble good 3"), l("e2e badpreamble trimmed 5"), l("e2e badpreamble lower 10"), l("e2e badpreamble straypause 0 3300"), l("e2e badpreamble goodpause 0 3300"), l("e2e badpreamble padpause 2 1200"),
             l("e2e pushe2e"), l("e2e preamble 77"), l("e2e finburst 5000 3 0"), l("e2e finburst 8192 4 0"), l("e2e finburst 3000 9 30"), l("e2e finburst 1 1 0"), l("e2e udp 1 100 1472 9000"), l("e2e udp6 1 100 1472 65507 3"), l("e2e udp 65507 1 30000 2"), l("e2e udplate 17 1200 9000"), l("e2e early socks 300"),
@@ -52,7 +52,7 @@ impl Group for E2eGroup {
                 "echo" => format!("e2e echo {} {} {}", rng.pick(&["socks_ip", "socks_domain", "direct", "http", "socks_ip6", "socks_magic"]), rng.pick(&[1usize, 100, 4096, 8191, 8192, 8193, 16384, 65535, 65536, 200000, 1000000]), rng.range(1, 9)),
                 "halfclose" => format!("e2e halfclose {} {}", rng.pick(&["socks", "direct"]), rng.pick(&[0usize, 1, 5000, 200000])),
                 "targetclose" => format!("e2e targetclose socks {}", rng.pick(&[0usize, 1, 5000, 200000])),
-                "reuse" => format!("e2e reuse {}", rng.range(2, 12)),
+                "reuse" => if rng.chance(1, 4) { format!("e2e reuse2 {}", rng.pick(&[300u64, 1100, 1500, 2500])) } else { format!("e2e reuse {}", rng.range(2, 12)) },
                 "finburst" => format!("e2e finburst {} {} {}", rng.pick(&[1usize, 100, 4096, 5000, 8192, 8193, 20000, 65535]), rng.range(1, 12), rng.pick(&[0u64, 0, 1, 30])),
                 "badpreamble" => if rng.chance(1, 4) { format!("e2e badpreamble {} {} {}", rng.pick(&["straypause", "goodpause", "padpause"]), rng.below(crate::g_auth::PASSWORDS.len() as u64), rng.pick(&[300u64, 1100, 2200, 3300, 5500, 11000])) } else { format!("e2e badpreamble {} {}", rng.pick(&["bitflip", "random", "truncated", "good", "good", "trimmed", "lower"]), rng.below(crate::g_auth::PASSWORDS.len() as u64)) },
                 "udp" => format!("e2e {} {}", rng.pick(&["udp", "udp", "udp6", "udplate"]), (0..rng.range(1, 5)).map(|_| rng.pick(&[1usize, 2, 100, 1472, 9000, 30000, 65507]).to_string()).collect::<Vec<_>>().join(" ")),
@@ -99,7 +99,7 @@ fn wanted(line: &str) -> bool {
     let only = std::env::var("VH_ONLY").unwrap_or_default();
     if only.is_empty() { return true; }
     let name = line.split_whitespace().nth(1).unwrap_or("");
-    let name = if name == "udp6" || name == "udplate" { "udp" } else { name };
+    let name = if name == "udp6" || name == "udplate" { "udp" } else if name == "reuse2" { "reuse" } else { name };
     only.split(',').any(|x| x == name)
 }
 
@@ -123,6 +123,7 @@ async fn scenario(t: &[String]) -> Res {
         ["e2e", "badpreamble", kind] => badpreamble(kind, 0, 0).await,
         ["e2e", "badpreamble", kind, pwi] => badpreamble(kind, pwi.parse().map_err(|_| "pwi")?, 0).await,
         ["e2e", "badpreamble", kind, pwi, ms] => badpreamble(kind, pwi.parse().map_err(|_| "pwi")?, ms.parse().map_err(|_| "ms")?).await,
+        ["e2e", "reuse2", gap] => reuse2(gap.parse().map_err(|_| "gap")?).await,
         ["e2e", "pushe2e"] => pushe2e().await,
         ["e2e", "finburst", n, k, cut] => finburst(n.parse().map_err(|_| "n")?, k.parse().map_err(|_| "k")?, cut.parse().map_err(|_| "cut")?).await,
         ["e2e", "preamble", k] => preamble2(k.parse().map_err(|_| "k")?).await,
@@ -555,6 +556,37 @@ async fn reuse(n: usize) -> Res {
     }
     w.stop().await;
     Ok((format!("sessions={canon:?} dials={dials}"), fails))
+}
+
+/// two non-overlapping requests under a valid but unusual pool configuration (idle timeout shorter than the check
+/// interval - the same pair is the session's keep-alive timeout and interval), `gap` ms apart: the second one must be
+/// served by the first one's session, which is healthy and idle
+async fn reuse2(gap: u64) -> Res {
+    let pool = SessionPoolConfig { check_interval: Duration::from_secs(5), idle_timeout: Duration::from_secs(1), min_idle_sessions: 1 };
+    let w = World::start(None, None, pool, false).await?;
+    let target = Target::start("127.0.0.1", Mode::Echo).await;
+    let mut fails = vec![];
+    let mut ids: Vec<u64> = vec![];
+    let mut closed_first = false;
+    let mut first: Option<std::sync::Arc<anytls_rs::session::Session>> = None;
+    for i in 0..2u8 {
+        let (stream, session) = w.client.create_proxy_stream(("127.0.0.1".to_string(), target.addr.port())).await.map_err(|e| e.to_string())?;
+        session.write_data_frame(stream.id(), bytes::Bytes::from(vec![i; 4])).await.map_err(|e| e.to_string())?;
+        let reader = stream.reader().clone();
+        let fut = async move { let mut g = reader.lock().await; let mut b = [0u8; 4]; g.read_exact(&mut b).await.map(|_| b) };
+        match tokio::time::timeout(GUARD, fut).await { Ok(Ok(b)) if b == [i; 4] => {} other => fails.push(fail("e2e_bytes_differ/tunnel", format!("request {i}: echo {:?}", other.map(|r| r.map(|b| b.to_vec()).map_err(|e| e.to_string()))))) }
+        ids.push(session.id());
+        if i == 0 { first = Some(session.clone()); }
+        drop(stream);
+        if i == 0 { tokio::time::sleep(Duration::from_millis(gap)).await; closed_first = first.as_ref().map(|s| s.is_closed()).unwrap_or(true); }
+    }
+    let dials = w.relay.accepted.load(Ordering::SeqCst);
+    // O (C13): the first session was open and idle when the second request arrived - it must have served it
+    if !closed_first && (dials != 1 || ids[0] != ids[1]) {
+        fails.push(fail("second_request_redialled/healthy_idle_session", format!("two requests {gap} ms apart (check interval 5 s, idle timeout 1 s, idle minimum 1): the first session was still open, yet the second request used another one ({dials} TLS connections)")));
+    }
+    w.stop().await;
+    Ok((format!("same={} dials={dials} first_closed={}", (ids[0] == ids[1]) as u8, closed_first as u8), fails))
 }
 
 async fn reaper() -> Res {
